@@ -52,6 +52,16 @@ fn main() {
         println!("final names: {:?}", sim.names());
         let real = std::fs::read(&path).unwrap();
         println!("final real hash {} sim {}", b3hex(&real), sim.file(FILE_NAME).map(b3hex).unwrap_or_default());
+        if let Some(simf) = sim.file(FILE_NAME) {
+            if simf != &real[..] {
+                let n = simf.len().min(real.len());
+                let diffs: Vec<usize> = (0..n).filter(|i| simf[*i] != real[*i]).collect();
+                println!("sim len {} real len {} differing bytes {} first {:?} last {:?}", simf.len(), real.len(), diffs.len(), diffs.first(), diffs.last());
+                std::fs::write("/tmp/crash-sim.bin", simf).unwrap();
+                std::fs::write("/tmp/crash-real.bin", &real).unwrap();
+                for (i, s) in rec.ops.iter().enumerate().skip(154) { println!("{i}: {}", s.brief()); }
+            }
+        }
         let _ = std::fs::remove_dir_all(&scratch);
     }
 }
